@@ -3,6 +3,7 @@ import re
 
 import hir as H
 import mir as M
+import rulelib as L
 
 CRATES = ["identity_credential"]
 SL = "identity_credential::revocation::status_list_2021::status_list::StatusList2021"
@@ -167,7 +168,20 @@ def run(F, R, tier):
         gz_d = dec.calls(re.compile(r"GzDecoder(<.*>)?::new$"))
         r4.require(bool(gz_e) and bool(gz_d), ("gzip",), "gzip encoder/decoder pair not found (enc=%d dec=%d)" % (len(gz_e), len(gz_d)))
         r4.site("gzip pair", None, enc=len(gz_e), dec=len(gz_d))
-    r4.floor(3)
+        # the whole store is compressed: write_all, or a write whose count is inspected; finish() result is used
+        wa = enc.calls(re.compile(r"(^std::io::Write::write_all$|as std::io::Write>::write_all$)"))
+        sw = L.short_write_sites(enc)
+        r4.site("compressor fed by write_all ×%d, unchecked short writes ×%d" % (len(wa), len(sw)), enc.rec["span"])
+        for bi, t in sw:
+            r4.fail((SL + "::into_encoded_str", "short-write"), "`Write::write` may consume only part of the list and its byte count is never inspected: the encoded list can be truncated (use write_all)", t["sp"])
+        r4.require(bool(wa) or bool(enc.calls(L.IO_WRITE)), (SL + "::into_encoded_str", "no-write"), "the store is never written into the compressor")
+        fin = enc.calls(re.compile(r"GzEncoder(<.*>)?::finish$"))
+        r4.require(bool(fin), (SL + "::into_encoded_str", "finish"), "GzEncoder::finish is not called: the gzip trailer would be missing")
+        # decoder reads to the end
+        rte = dec.calls(re.compile(r"Read(>)?::read_to_end$"))
+        r4.require(bool(rte), (SL + "::try_from_encoded_str", "read_to_end"), "the decoder does not read the decompressed stream to its end")
+        r4.site("decoder read_to_end ×%d, finish ×%d" % (len(rte), len(fin)))
+    r4.floor(5)
 
     # ---------------------------------------------------------------- R5 one-way revocation (T2, T6, T1)
     r5 = R.rule("C12-R5", "T2", "revocation entries cannot be cleared: `purpose==Revocation && !value && current` never reaches StatusList2021::set or Ok")
